@@ -142,18 +142,22 @@ func (z *Decimal) scan(r io.ByteScanner, base int) (f *Decimal, b int, err error
 	// 0x.7 with 24 fractional zeros as 0.437499999 at 9 digits.)
 	if lim := 5*(int64(len(z.mant))*_DW+int64(z.prec)) + 64; -lim <= exp2 && exp2 <= lim {
 		t := new(Decimal)
+		e10 := int64(z.exp)
 		if exp2 > 0 {
 			t.SetInt(new(big.Int).Lsh(big.NewInt(1), uint(exp2)))
-			z.Mul(z, t)
 		} else {
 			t.SetInt(new(big.Int).Exp(big.NewInt(5), big.NewInt(-exp2), nil))
-			z.Mul(z, t)
-			acc := z.acc
-			z.SetMantExp(z, int(exp2))
-			if z.form == finite {
-				z.acc = acc
-			}
+			e10 += exp2
 		}
+		// Compute the exact product with a neutral exponent (the literal's own
+		// exponent may sit at either end of the range while the scaled value
+		// is representable, or the other way round), then apply the decimal
+		// exponent and round once.
+		z.exp = 0
+		z.prec = MaxPrec
+		z.umul(z, t)
+		z.prec = prec
+		z.setExpAndRound(int64(z.exp)+e10, 0)
 		return
 	}
 
